@@ -2,6 +2,7 @@
 From Coq Require Import List Arith Sorting.Permutation.
 Require Import JV.Model.ParallelCore JV.Proofs.ParallelInv1 JV.Proofs.ParallelInv4 JV.Proofs.ParallelMisc
                JV.Proofs.ParallelUnordered.
+Require Import JV.Proofs.ParallelStable.
 Import ListNotations.
 
 (* calling the object again during an unfinished run raises RuntimeError and changes nothing *)
@@ -49,3 +50,13 @@ Theorem C16_unordered_sound : forall s, reach s -> mode (c s) = Unordered -> ifa
   NoDup (delivered s) /\ incl (delivered s) (seq 0 (taken s)).
 Proof. exact unordered_output_sound. Qed.
 Print Assumptions C16_unordered_sound.
+
+(* Below the granularity of the model: in _retrieve the consumer reads _jobs[0] and its status WITHOUT the lock and
+   only then takes the lock to pop.  What it read stays true under interference: no event of another thread
+   (caller dispatch, either section of any completion callback) removes or replaces the head of the queue, changes a
+   status that is no longer Pending, lowers the abort flag or invalidates a tracker id -- which is what makes the
+   check-then-act of the retrieval loop, and its treatment as one atomic event, sound. *)
+Theorem C16_unlocked_reads_are_stable : forall s e, reach s -> wf_ev e -> interference e -> want s = false ->
+  head_kept s (fst (step true s e)).
+Proof. exact unlocked_reads_are_stable. Qed.
+Print Assumptions C16_unlocked_reads_are_stable.
